@@ -94,6 +94,8 @@ pub struct EventSender<'a> {
     extra: AtomicUsize,
     // the mpsc event queue to collect the events
     cqueue: &'a Cqueue,
+    // set while the kernel side of `send` (subscribe, on the thread that ran us) still uses `self`
+    wait_kernel: AtomicBool,
 }
 
 unsafe impl Send for EventSender<'_> {}
@@ -114,11 +116,18 @@ impl EventSender<'_> {
         #[cfg(may_verif)]
         crate::verif::pt("cq.send.yield", crate::verif::addr(self.cqueue), 0, 0);
         yield_with(self);
+        // the event is published by the push in `subscribe`: the poller may have resumed us
+        // while that thread is still about to wake it through `self.cqueue`.  Don't run on
+        // (and possibly drop `self`, or let the cqueue be dropped) before it is done
+        while self.wait_kernel.load(Ordering::Acquire) {
+            std::thread::yield_now();
+        }
     }
 }
 
 impl EventSource for EventSender<'_> {
     fn subscribe(&mut self, co: CoroutineImpl) {
+        self.wait_kernel.store(true, Ordering::Relaxed);
         #[cfg(may_verif)]
         let vid = crate::verif::co_vid(&co);
         #[cfg(may_verif)]
@@ -132,7 +141,10 @@ impl EventSource for EventSender<'_> {
         });
         #[cfg(may_verif)]
         crate::verif::pt("cqsub.take", crate::verif::addr(self.cqueue), vid, 0);
-        if let Some(w) = self.cqueue.to_wake.take() {
+        let waker = self.cqueue.to_wake.take();
+        // last use of `self`
+        self.wait_kernel.store(false, Ordering::Release);
+        if let Some(w) = waker {
             w.unpark();
         }
     }
@@ -194,6 +206,7 @@ impl Cqueue {
             token,
             extra: 0.into(),
             cqueue: self,
+            wait_kernel: AtomicBool::new(false),
         };
         let h = unsafe { spawn_unsafe(move || f(sender)) };
         let co = h.coroutine().clone();
